@@ -12,7 +12,12 @@ open WM.Proto WM.Columns
 `bit COMPRESSAT DOCCOUNT ((d 0|1)*)`              → `ok FILE (0|1*)`
 `varlist (hex*)` / `fixlist FIXEDLEN (hex*)`      → `ROW (decoded*)`
 `multi (offset*) (docnum*)`                       → `((reader local)*)`
-`rows DEFAULT DOCCOUNT ((d hex)*)`                → Layer S rows. -/
+`rows DEFAULT DOCCOUNT ((d hex)*)`                → Layer S rows.
+`sdict ((name VALUE|- OVERRIDE|-|None 0|1)*)`     → `{name=value,…} (model 0|1)`: `storedDict`, and whether
+                                                     every lookup agrees with `specStored`
+`segs DEFAULT ((HASCOL N ((d v)*) (live*))*)`     → `(multi-rows) (merged-rows) (model 0|1)`: `multiGet` over the
+                                                     segments, then the `write_per_doc` copy of all segments
+                                                     into one (`mergeColumnAdds`), both compared with Layer S. -/
 
 def parseAdds {α} (f : SExp → Option α) : SExp → Option (List (Nat × α))
   | .list xs => xs.mapM fun
@@ -68,7 +73,71 @@ def doBit (compressAt doccount : Nat) (adds : List (Nat × Bool)) : String :=
   let file := bitWrite compressAt adds
   s!"ok {showHex file} {showList (fun d => showBool (bitGet file d)) (List.range doccount)}"
 
+def parseField : SExp → Option (FieldIn String)
+  | .list [.atom name, .atom v, .atom o, st] => do
+    let st ← st.bool?
+    pure { name := name, value := if v == "-" then none else some v,
+           override := if o == "-" then none else if o == "None" then some none else some (some o),
+           stored := st }
+  | _ => none
+
+def doSdict (fs : List (FieldIn String)) : String :=
+  let d := storedDict fs
+  let ok := fs.all fun f => ((d.find? fun kv => kv.1 == f.name).map (·.2)) == specStored fs f.name
+  let body := ",".intercalate (d.map fun kv => kv.1 ++ "=" ++ kv.2)
+  s!"\{{body}} (model {showBool ok})"
+
+structure SegIn where
+  hasCol : Bool
+  n : Nat
+  adds : List (Nat × String)
+  live : List Nat
+
+def parseSeg : SExp → Option SegIn
+  | .list [h, n, adds, live] => do
+    let h ← h.bool?
+    let n ← n.nat?
+    let adds ← parseAdds SExp.atom? adds
+    let live ← live.natList?
+    pure ⟨h, n, adds, live⟩
+  | _ => none
+
+def SegIn.col (db : String) (s : SegIn) : SegCol String :=
+  if s.hasCol then .rows (rowsOf db s.adds s.n) else .empty s.n
+
+/-- `add_reader` segment after segment: the new document numbers continue where the previous
+    segment stopped. -/
+def mergeAll (db : String) : Nat → List SegIn → Except Err (List (Nat × String))
+  | _, [] => .ok []
+  | base, s :: rest => do
+    let a ← mergeColumnAdds s.hasCol (SegCol.get db (s.col db)) base s.live
+    let b ← mergeAll db (base + s.live.length) rest
+    pure (a ++ b)
+
+def doSegs (db : String) (segs : List SegIn) : String :=
+  let cols := segs.map (SegIn.col db)
+  let total := (cols.map SegCol.len).sum
+  let multi := (List.range total).map fun d => match multiGet db cols d with
+    | .ok v => v
+    | .error e => "!" ++ e.name
+  let specMulti := (segs.map fun s => rowsOf db (if s.hasCol then s.adds else []) s.n).flatten
+  let nlive := (segs.map (·.live.length)).sum
+  let specMerged := (segs.map fun s => s.live.map (cell db (if s.hasCol then s.adds else []))).flatten
+  match mergeAll db 0 segs with
+  | .error e => s!"{showList id multi} merge-err {e.name}"
+  | .ok madds =>
+    let merged := rowsOf db madds nlive
+    s!"{showList id multi} {showList id merged} (model {showBool (multi == specMulti && merged == specMerged)})"
+
 def handle : List SExp → String
+  | [.atom "sdict", .list fs] =>
+    match fs.mapM parseField with
+    | some fs => doSdict fs
+    | none => "bad-op"
+  | [.atom "segs", .atom db, .list segs] =>
+    match segs.mapM parseSeg with
+    | some segs => doSegs db segs
+    | none => "bad-op"
   | [.atom "var", allow, cutoff, doccount, adds] =>
     match allow.bool?, cutoff.nat?, doccount.nat?, parseAdds hex? adds with
     | some a, some c, some n, some xs => doVar a c n xs
